@@ -16,7 +16,7 @@ assumptions = ["msdparser's 4096-character chunking is transparent for the gener
                "open(filename) reads with universal newlines: the model is given the newline-translated text for that entry point"]
 extra_trusted = ["msdparser 2.0.0 tokenizer is the trusted base the rules are applied to; Model/Msd.v is additionally compared with it token for token"]
 
-NAMES = ["a.sm", "a.ssc", "A.SM", "a.txt", "a.sm.bak", "noext", "b.SsC", "sm"]
+NAMES = ["a.sm", "a.ssc", "A.SM", "a.txt", "a.sm.bak", "noext", "b.SsC", "sm", ".sm", ".ssc", "..SM", "Mr. Saturn.sm", "v1.2.ssc", "a.ssc.sm"]
 _tmp = None
 
 
@@ -40,7 +40,7 @@ def corpus():
                   "#NOTEDATA:;#displaybpm:60:240;#NOTES:0000;", "#A:b\\",
                   "#NOTES:dance-single:C\\\\:Songs:Easy:3:0,0:0000;", "#NOTES:dance-single:desc:Easy:3:0,0\\\\:0000:x\\\\:;",       # components ending in a backslash: from_str meets "\\:" in the joined string
                   "# Version:0.83;#TITLE:t;", "#VERSION\n#TITLE:x;#NOTES:a:b:c:d:e:0;", "#VERSION :0.83;#NOTEDATA:;#NOTES:0;"):
-            out.append({"t": ["lit", t], "strict": strict, "names": ["a.txt", "a.sm", "a.ssc", "noext", "sm"]})
+            out.append({"t": ["lit", t], "strict": strict, "names": ["a.txt", "a.sm", "a.ssc", "noext", "sm", ".sm", ".ssc", "Mr. Saturn.sm", "v1.2.ssc"]})
     return out
 
 
